@@ -14,7 +14,7 @@ type Spawn struct {
 	Instr   ssa.Instruction // the go statement or the Group.Go call
 	Closure *ssa.Function
 	MC      *ssa.MakeClosure // nil when a named function is spawned
-	Kind    string          // "go" | "errgroup.Go"
+	Kind    string           // "go" | "errgroup.Go"
 	InLoop  bool
 }
 
